@@ -272,7 +272,13 @@ def parse_runs(text):
     runs = []
     cur = None
     crash = None
+    last_start = None
     for l in text.split("\n"):
+        if l.startswith("START "):
+            m = re.match(r"START seed=(\d+) strat=(\d+) script=(.*)", l)
+            if m:
+                last_start = (int(m.group(1)), int(m.group(2)), m.group(3))
+            continue
         if l.startswith("RUN "):
             m = re.match(r"RUN seed=(\d+) strat=(\d+) script=(.*)", l)
             cur = dict(seed=int(m.group(1)), strat=int(m.group(2)), script=m.group(3), trace=[], fails=[], status="incomplete",
@@ -292,7 +298,8 @@ def parse_runs(text):
             if runs and runs[-1]["status"] == "incomplete":
                 crash = runs[-1]
             else:
-                crash = dict(seed=0, strat=0, script="?", trace=[], fails=[], status="incomplete", decisions="", crashlog=[])
+                ls = last_start or (0, 0, "?")
+                crash = dict(seed=ls[0], strat=ls[1], script=ls[2], trace=[], fails=[], status="incomplete", decisions="", crashlog=[])
                 runs.append(crash)
             crash["status"] = "crash"
             crash["crashlog"].append(l)
@@ -306,6 +313,7 @@ def parse_runs(text):
 
 def drive(comp, text):
     """pipe client output through the Lean driver; returns (verdicts[list of str], summary dict)"""
+    text = "\n".join(l for l in text.split("\n") if not l.startswith(("START ", "CRASH ", "CRASHLOG ")))
     p = subprocess.run([DRIVER, comp], input=text, stdout=subprocess.PIPE, stderr=subprocess.STDOUT, text=True, timeout=1200)
     verdicts = []
     summary = {}
@@ -431,7 +439,14 @@ def coverage_check(cname, c, seed):
                     missing.append("%s:%s: %s" % (h, ln, text.strip()))
                 else:
                     hit += 1
-        summary = dict(headers=hdrs, lines_instrumented=total, lines_executed=hit, lines_missing=len(missing),
+        # member functions the client never instantiates have no code for gcov to count: ask clang's typed AST
+        import instcov
+        iflags = [x for x in cxx[1:] if x not in ("-g", "-pthread", "-std=c++17")] + list(c.get("flags", ())) + [
+            "-include", os.path.join(HARN, "vshim.hpp")]
+        nmem, imiss = instcov.inst_coverage(src, hdrs, iflags, allow=c.get("inst_allow", ()))
+        missing += imiss
+        summary = dict(headers=hdrs, lines_instrumented=total, lines_executed=hit, lines_missing=len(missing) - len(imiss),
+                       member_functions=nmem, members_never_instantiated=len(imiss),
                        runs=ndirected * nd + nr + nr // 2)
         json.dump(dict(key=key, summary=summary, missing=missing), open(res_file, "w"))
         for f in os.listdir(d):
